@@ -50,6 +50,11 @@ func (q *Command) Sanitize(args ...any) (string, error) {
 			case nil:
 				str = "null"
 			case int64:
+				// every number of the engine is a float64: an integer that has no exact
+				// float64 would be read back as another number
+				if f := float64(arg); f >= 1<<63 || int64(f) != arg {
+					return "", fmt.Errorf("invalid arg value: %d has no exact float64", arg)
+				}
 				str = strconv.FormatInt(arg, 10)
 			case float64:
 				// NaN and the infinities have no literal: their text would be read as a column name
